@@ -10,7 +10,7 @@ ASSUMPTIONS = ["rule names are ASCII (ALPHA/DIGIT/'-'), so str.casefold() is ASC
 
 def run(ctx):
     out = os.path.join(C.WORK, "c18.json")
-    n = 600 if ctx["tier"] == "quick" else 20000
+    n = 600 * ctx.get("boost", 1) if ctx["tier"] == "quick" else 20000
     rc, so, se = C.sh([C.PY, os.path.join(C.VERIF, "tools", "visit_x.py"), "--seed", str(ctx["seed"]), "--n", str(n),
                        "--out", out], env=C.env_for_impl("0"), timeout=3000)
     if rc != 0:
